@@ -28,6 +28,15 @@ func AsInt64(w reflect.Value) (int64, bool) {
 	}
 }
 
+func isUnsigned(w reflect.Value) bool {
+	switch w.Kind() {
+	case reflect.Uint, reflect.Uint8, reflect.Uint16,
+		reflect.Uint32, reflect.Uint64:
+		return true
+	}
+	return false
+}
+
 func convertSlice(v, w reflect.Value) error {
 	if w.Kind() != reflect.Slice {
 		return fmt.Errorf("Failed to convert slice %v into %v",
@@ -149,12 +158,20 @@ func convertFrom(v, w reflect.Value) error {
 	case reflect.Int, reflect.Int8, reflect.Int16, reflect.Int32,
 		reflect.Int64:
 		if i, ok := AsInt64(w); ok {
+			// an unsigned source above MaxInt64 wraps to a
+			// negative int64 in AsInt64.
+			if (isUnsigned(w) && i < 0) || v.OverflowInt(i) {
+				return errConversion
+			}
 			v.SetInt(i)
 			return nil
 		}
 	case reflect.Uint, reflect.Uint8, reflect.Uint16,
 		reflect.Uint32, reflect.Uint64:
 		if i, ok := AsInt64(w); ok {
+			if (!isUnsigned(w) && i < 0) || v.OverflowUint(uint64(i)) {
+				return errConversion
+			}
 			v.SetUint(uint64(i))
 			return nil
 		}
